@@ -315,9 +315,37 @@ def field_hint(I, hint, name):
     return None
 
 
+def narrow(I, st, v, name):
+    """Type narrowing from the path condition: the (unique, most general) class that defines `name`
+    and that `v` is known to be an instance of on this path (after an isinstance() test)."""
+    key = name
+    owners = NARROW_CACHE.get(key)
+    if owners is None:
+        owners = []
+        for q, ent in I.w.facts["classes"].items():
+            if any(e["name"] == name and e["kind"] in ("method", "property", "static", "classmethod") for e in ent["own"]):
+                if q.startswith(("urllib3.", "http.client.", "queue.", "socket.", "ssl.", "io.", "_io.", "collections.")):
+                    owners.append(q)
+        # keep only the most general definers
+        owners = [q for q in owners if not any(o != q and o in I.w.class_mro.get(q, ()) for o in owners)]
+        NARROW_CACHE[key] = owners
+    t = v.t
+    for q in owners:
+        if not I.feasible(st, z3.Not(I.w.isinstance_term(t, [q]))):
+            return q
+    return None
+
+
+NARROW_CACHE = {}
+
+
 def getattr_sym(I, st, v, name, fr, k):
     t = v.t
     hint = v.hint
+    if hint is None and name not in PRIM_METHODS and not z3.is_false(z3.simplify(is_ref(t))):
+        hint = narrow(I, st, v, name)
+        if hint is not None:
+            v = Sym(t, hint)
     if hint:
         r = I.w.find_attr(hint, name)
         if r is not None:
@@ -763,7 +791,7 @@ def sf_hasattr(I, st, e, fr, k):
     return I.ev_list(st, e.args, fr, got)
 
 
-HASATTR = {}
+HASATTR = {"errno": lambda I, st, x: I.w.isinstance_term(x.t, ["builtins.OSError"])}
 
 def sf_uf(I, st, e, fr, k):
     """uf('name', args...): an uninterpreted V-valued function of its arguments (spec only)."""
@@ -775,7 +803,12 @@ def sf_uf(I, st, e, fr, k):
     return I.ev_list(st, e.args[1:], fr, got)
 
 
-SPECIAL_FORMS = {"uf": sf_uf, "old": sf_old, "fresh": sf_fresh, "implies": sf_implies, "iff": sf_iff, "isinstance": sf_isinstance,
+def sf_K(I, st, e, fr, k):
+    """K('qualified.ClassName'): a class by its qualified name (spec only; avoids short-name ambiguity)"""
+    return k(st, ClassV(I.w.resolve_class(e.args[0].value)))
+
+
+SPECIAL_FORMS = {"K": sf_K, "uf": sf_uf, "old": sf_old, "fresh": sf_fresh, "implies": sf_implies, "iff": sf_iff, "isinstance": sf_isinstance,
                  "super": sf_super, "forall": sf_forall, "exists": sf_forall, "hasattr": sf_hasattr}
 SPECIAL_ALWAYS = {"isinstance", "super", "hasattr"}
 
